@@ -486,8 +486,9 @@ def gen_synthetic(ck, n_cases):
         c = g.make_class(cls, digi)
         nev = rng.choice([1, 2, 3, 5, 8, 20] if k % 7 else [40])
         evs, expect = [], []
+        all_empty = digi and k % 5 == 3          # a digi stream none of whose events holds a digi (skims, empty entry ranges)
         for _ in range(nev):
-            cnt = rng.choice([0, 0, 1, 2, 3, 6])
+            cnt = 0 if all_empty else rng.choice([0, 0, 1, 2, 3, 6])
             objs = [g.object(c, digi) for _ in range(cnt)]
             evs.append(f"({g.colhdr()}, [" + "; ".join(f"({g.objhdr(cls)}, {o[0]})" for o in objs) + "])")
             expect.append([o[1] for o in objs])
@@ -788,6 +789,10 @@ def run(ck: vlib.Check):
             if "model" in g and g["model"] != canon_json(model[1]):
                 ck.tie_broken("correspondence", f"schema builder ({c['name']})", "the schema built from the streamer-info dicts decodes the stream "
                               f"differently from the Gallina term it was generated from: {first_diff(canon_json(model[1]), g['model'])}")
+            if "want_fields" in g and g.get("fields") != g["want_fields"]:
+                ck.violation(f"C01:synthetic:digi-fields:{c['name']}:{hashlib.sha1(c['data'].encode()).hexdigest()[:10]}",
+                             f"synthetic digi stream ({c['path']}, {c.get('events')} events, {c.get('objects')} objects): presented fields {g.get('fields')}, "
+                             f"expected the raw-data members at top level: {g['want_fields']}", {k: c[k] for k in ("name", "path", "cls", "digi", "streamer", "data", "offs")})
             d = first_diff(canon_json(model[1]), g["got"])
             if d:
                 nbad += 1
